@@ -17,3 +17,9 @@ open LasModel.Props.C15
 #print axioms C15_kept_near
 #print axioms C15_2d
 #print axioms C15_resolution
+#print axioms lazy_collect
+#print axioms C15_nodes_paged
+#print axioms loop_succeeds
+#print axioms C15_nodes
+#print axioms groupNodes_spec
+#print axioms C15_fetch
